@@ -697,11 +697,15 @@ extern "C"
             static auto f = real<int (*)(sem_t *)>("sem_post");
             return f(s);
         }
-        if (__tsan_release)
-            __tsan_release(s);
         me->kind = K_SPOST;
         me->obj = s;
         park(me);
+        // The release edge is published only now, when the post has taken effect in the model. (For a
+        // mutex an early release is harmless - nobody can acquire it before the unlock is performed -
+        // but a semaphore with a count above one lets another thread in while this one is still parked
+        // in front of its post, and that thread must NOT inherit a happens-before edge from here.)
+        if (__tsan_release)
+            __tsan_release(s);
         return 0;
     }
     int sem_getvalue(sem_t *s, int *v)
